@@ -17,3 +17,9 @@ claim("C19",
   "Rules run: C19/O1O2, O3, O4, O5, O6, O7. Trusted: go/ssa, the specification tables in checker/rule_c19.go (option -> setting, platform option name -> driver option). Assumes the constructors named in the rule are the public entry points.",
   "option-table extraction from closure SSA + constructor apply-loop analysis (range order, exit guards) + AST switch tables",
   "DESIGN.md section 4, C19")
+
+claim("C11",
+  "Decides the whole statement, under the stated assumptions, for all secrets, dialogues, retries, failures and log levels at once: an interprocedural field-based taint analysis over the SSA of every library function shows that no value derived from the login password, key passphrase or secondary secret reaches any argument of any logger method, the channel-log writer, package log or fmt.Print*; the channel write gate logs its data only when the redaction flag is false (T1), every gate call with credential-derived data passes a flag that is constant true / the gate's own flag / the HideInput of the same event (T2), every library-built interactive event carrying a credential is hidden (T3), the channel log receives only the enqueued transport bytes (T5) and platform channel.write steps forward the definition's redacted flag (T6).",
+  "Rules run: C11/T1..T6. Assumes (A1) error results of functions outside the module do not embed their arguments, external methods do not stash arguments in their receiver, the device does not echo secrets, user loggers/callbacks/transports are outside the library. Context-insensitive and field-based: may only over-approximate flows (0 spurious hits on the pinned tree). Trusted: go/ssa, VTA call graph.",
+  "interprocedural field-based taint analysis on SSA with a flag-guarded gate model",
+  "DESIGN.md section 4, C11")
